@@ -685,10 +685,18 @@ public:
     {
         const auto& header = utils::get_schema_encoding_as<sbe::composite>(
             *schema, g.dimension_type);
-        const auto& t = std::get<sbe::type>(
-            *utils::find_composite_element(header, "numInGroup"));
+        // `numInGroup` can be either an inline `<type>` or a `<ref>` to one
+        const auto element =
+            utils::find_composite_element(header, "numInGroup");
+        const auto* t = std::get_if<sbe::type>(element);
+        if(!t)
+        {
+            const auto r = std::get_if<sbe::ref>(element);
+            assert(r);
+            t = &utils::get_schema_encoding_as<sbe::type>(*schema, r->type);
+        }
 
-        return ctx_manager->get(t).underlying_type;
+        return ctx_manager->get(*t).underlying_type;
     }
 
     static std::string make_unique_param_name(
